@@ -24,7 +24,10 @@ RULE = ("host corpus (reg-names with every ASCII character in host position, cas
 
 IPS = ["127.0.0.1", "1.2.3.4", "255.255.255.255", "0.0.0.0", "1.2.3", "1.2.3.4.5", "01.2.3.4", "256.1.1.1", "0x7f.0.0.1", "1.2.3.4%z",
        "::1", "::", "2001:DB8::1", "2001:db8:0:0:0:ff00:42:8329", "0:0:0:0:0:0:0:1", "::ffff:1.2.3.4", "fe80::1%eth0", "fe80::1%25eth0",
-       "FE80::1%Eth0", "fe80::1%", "1::2::3", ":::", "12345::", "::1%a b", "::1%a/b", "::g", "[::1]", "v1.x", "::1]", "[::1"]
+       "FE80::1%Eth0", "fe80::1%", "1::2::3", ":::", "12345::", "::1%a b", "::1%a/b", "::g", "[::1]", "v1.x", "::1]", "[::1",
+       # Unicode decimal digits in address position (full-width, Arabic-Indic, mixed), IPvFuture look-alikes
+       "１２７.０.０.１", "192.168.1.１", "١٢٧.٠.٠.١", "1.2.3.４", "１.2.3.4", "٣", "1.2.3.4٣", "::１", "fe80::1%１",
+       "va.gov", "v1.example.com", "vf.fe80", "V1.x"]
 NAMES = ["h", "example.com", "EXAMPLE.COM", "ExAmPlE.cOm", "a-b.c", "a_b", "h.", "a..b", ".a", "xn--bcher-kva.example", "XN--BCHER-KVA.EXAMPLE",
          "bücher.example", "BÜCHER.example", "例え.テスト", "ｅxample.com", "a。b", "Éx_.Com", "a／b", "a%41", "a%zz", "a%4", "%", "a%2Fb", "~x", "!$&'()*+,;=",
          "a b", "a/b", "a?b", "a#b", "a@b", "a:b", "a[b", "a]b", "a\\b", "a\"b", "a<b>", "a^b", "a`b", "a{b}", "a|b", "\x00", "a\tb", "a\nb",
